@@ -431,6 +431,9 @@ func script(p Plan, out *vk.Outcome) error {
 
 func runReps(p Plan) (vk.Outcome, error) {
 	reps := vk.Reps(3, 10)
+	if p.Long > 0 {
+		reps = vk.Reps(3, 2) // (thousands of items per execution: ten repetitions of these made the thorough tier take an hour)
+	}
 	var out vk.Outcome
 	for i := 0; i < reps; i++ {
 		o, err := run(p)
